@@ -80,6 +80,16 @@ CLAIMED = {
         "cryptographic strength is a hypothesis (C09_same_result), not a theorem; hangs inside x690 on corrupted input are "
         "attributed to the recorded dependency finding only when the Lean x690 mirror predicts the loop for that datagram",
     ),
+    "C10": (
+        "proof: flags = level of the credentials (generated V3Flags code) and every confirmed-class request kind reportable "
+        "(generated is_confirmed table, decide); security parameters = discovery result + user; digest = MAC over the datagram "
+        "with twelve zero octets, and datagram / MAC input differ only in those twelve octets (in-place lemma over the message "
+        "structure); authentic responses at the credentials' level are accepted for every length; expansion buffer has n octets "
+        "with octet i = password[i mod |password|] for every non-empty password; localisation buffer Ku ++ engineId ++ Ku; tied "
+        "by the reference RFC 3414 agent accepting every generated request, independent HMAC over the wire bytes, byte-exact "
+        "comparison with the model, authentic responses sweeping all lengths 100..300, recording-hash key derivation",
+        "HMAC / hash functions are abstract in Lean (theorems hold for every function) and trusted in hashlib",
+    ),
     "C12": (
         "proof (partial): first datagram of a fresh client is a discovery probe in every history; every request carries the "
         "discovered engine id (security and default context engine id); refused discovery replies (foreign msg id / no bindings) "
